@@ -158,6 +158,7 @@ def host_main(case_path, out_path):
         closed = [False]
         prev_unreg = [0]
         recorded = set()       # workers whose death an earlier run has met
+        closed_by_cut = set()  # workers that an interrupted close()/terminate() has (possibly) already close()d
         alive_reg = [0]
 
         def hostkw(kind):
@@ -279,7 +280,8 @@ def host_main(case_path, out_path):
                 # (a process that took the linger-poison has reported its end - the pool has seen it off - but is still there)
                 lingering = set(int(f.split('.')[1]) for f in os.listdir(flagdir) if f.startswith('linger.'))
                 live_before = [w for w in ws if 'obj' in w and os_alive(w) and any(o is w['obj'] for o in pool.workers)
-                               and not (w['kind'] != 'thread' and w['pids'] and w['pids'][-1] in lingering)]
+                               and not (w['kind'] != 'thread' and w['pids'] and w['pids'][-1] in lingering)
+                               and id(w['obj']) not in closed_by_cut]      # close()d by a close that was cut short: on its way out
                 st['fresh_dead'] = len([w for w in ws if 'obj' in w and any(o is w['obj'] for o in pool.workers)
                                         and not os_alive(w) and id(w['obj']) not in recorded])
                 oc, r = bounded(lambda: pool.run(iter(inputs), enqueue_fn=efn))
@@ -360,6 +362,7 @@ def host_main(case_path, out_path):
                         pass
                 if oc == 'ok':
                     restarted.update(id(w['obj']) for w in regs)
+                closed_by_cut.difference_update(restarted)
             elif name == 'kill':
                 w = ws[int(arg) - 1] if int(arg) <= len(ws) else None
                 if w is None or 'obj' not in w or w['kind'] == 'thread' or not w['pids']:
@@ -418,6 +421,7 @@ def host_main(case_path, out_path):
                     closed[0] = True
                 else:
                     st['exc'] = type(r).__name__
+                    closed_by_cut.update(id(w['obj']) for w in ws if 'obj' in w and any(o is w['obj'] for o in pool.workers))
                     time.sleep(2 * CLOSE_T + 0.2)  # aborted clean-up threads leave their wait(); a thread that was not aborted finishes its terminate()
             elif name in ('close', 'terminate', 'exc'):
                 st['closing'] = 'T'
